@@ -1,3 +1,4 @@
 import Iodata.Props.C10
 import Iodata.Props.C09
 import Iodata.Props.C16
+import Iodata.Props.C05
